@@ -49,7 +49,7 @@ class Shape:
     def expected_nsub(self):
         if self.filled and self.nsub is not None: return self.nsub
         if not self.chans: return 0
-        if self.prate == 0.0 or int(self.prate) == 0: return 1
+        if self.prate == 0.0: return 1
         q = struct.unpack('<f', struct.pack('<f', f32(self.arate) / f32(self.prate)))[0]
         return int(q)
 
@@ -114,7 +114,9 @@ def conforming_history(rng, max_frames=8, snap=True, with_cols=True, with_params
     if rng.random() < 0.6:
         for _ in range(rng.choice([1, 2, 3])):
             if rng.random() < 0.75: steps.append(('ra2', rng.choice([10, 9, 8, 7, 5, 4, 3, 2, 1, 6, 12])))
-            else: steps.append(('rp2', rng.choice([50.0, 100.0, 200.0, 25.0, 0.0])))
+            elif rng.random() < 0.5: steps.append(('rp2', rng.choice([50.0, 100.0, 200.0, 25.0, 0.0])))
+            # a small correction of the point rate (more than 1e-4 Hz, far less than 1 %): the header follows to 1e-4 Hz
+            else: steps.append(('rp3', rng.choice([-0.006, -0.0011, -0.0002, -0.01, -0.05, 0.0003])))
     for st in steps:
         if st[0] == 'dp': b.declare_point(st[1]); sh.pts.append(trim(st[1]))
         elif st[0] == 'da': b.declare_analog(st[1]); sh.chans.append(trim(st[1]))
@@ -126,6 +128,8 @@ def conforming_history(rng, max_frames=8, snap=True, with_cols=True, with_params
             if nch: b.set_rate(b'ANALOG', (sh.prate or 100.0) * st[1], rng.random() < 0.3)
         elif st[0] == 'rp2':
             b.set_rate(b'POINT', st[1], rng.random() < 0.3)
+        elif st[0] == 'rp3':
+            if sh.prate: b.set_rate(b'POINT', f32(f32(sh.prate) + st[1]), rng.random() < 0.3)
         elif st[0] == 'param':
             b.raw('P.new %s x' % hx(b'NOTE')); b.raw('P.set I 0 2 1 2'); b.emit('param 0 ' + hx(b'EXTRA'), 'param')
     if (sh.pts and sh.prate == 0.0): b.set_rate(b'POINT', prate)
@@ -175,7 +179,10 @@ def conforming_history(rng, max_frames=8, snap=True, with_cols=True, with_params
     return b
 
 DEVIATIONS = ['point-missing', 'point-extra', 'point-renamed', 'point-dup', 'points-none', 'chan-missing', 'chan-extra',
-              'subs-none', 'sub-extra', 'sub-missing', 'empty', 'permuted']
+              'subs-none', 'sub-extra', 'sub-missing', 'empty', 'permuted',
+              # the channel count is wrong AND the frame carries at least one sub-frame, whatever the rates announce (a rate
+              # ratio below 1 announces none: the channel guard must still see ANALOG:USED)
+              'chan-extra-1sub', 'chan-missing-1sub']
 
 def deviate(rng, sh, dev):
     """a frame literal that deviates from the declared shape in exactly one way"""
@@ -193,6 +200,8 @@ def deviate(rng, sh, dev):
     elif dev == 'sub-missing' and nsub > 0: nsub -= 1
     elif dev == 'empty': pts = []; chans = []; nsub = 0
     elif dev == 'permuted' and len(pts) >= 2: pts = pts[1:] + pts[:1]
+    elif dev == 'chan-extra-1sub': chans.append(b'zz_c'); nsub = max(1, nsub)
+    elif dev == 'chan-missing-1sub' and chans: chans.pop(); nsub = max(1, nsub)
     return rand_lit(rng, pts, chans, nsub)
 
 class OpRec:
